@@ -10,3 +10,4 @@ open Rpylib.Rng
 #print axioms old_standard_depends_on_ambient
 #print axioms old_reseed_duplicates
 #print axioms tokens_shared_multiprocess_counterexample
+#print axioms tokens_disjoint_multiprocess_partial
